@@ -89,6 +89,11 @@ def slice_from(ex, buf, n):
     if isinstance(buf, Str):
         return Str(buf.buf, add(buf.start, n), buf.end, buf.is_str)
     if isinstance(buf, ArrSlice):
+        if isinstance(n, int):
+            return ArrSlice(buf.items[n:])
+        if len(buf.items) > 8:
+            import models_v2
+            return Str(models_v2.ListBuf('arr', buf.items), n, len(buf.items), False)
         for k in range(len(buf.items) + 1):
             if ex.branch(eq(n, k)):
                 return ArrSlice(buf.items[k:])
@@ -100,6 +105,11 @@ def slice_to(ex, buf, n):
     if isinstance(buf, Str):
         return Str(buf.buf, buf.start, add(buf.start, n), buf.is_str)
     if isinstance(buf, ArrSlice):
+        if isinstance(n, int):
+            return ArrSlice(buf.items[:n])
+        if len(buf.items) > 8:
+            import models_v2
+            return Str(models_v2.ListBuf('arr', buf.items), 0, n, False)
         for k in range(len(buf.items) + 1):
             if ex.branch(eq(n, k)):
                 return ArrSlice(buf.items[:k])
@@ -144,6 +154,22 @@ def hook(ex, func, argv, frame):
         return True, Opaque('arrpositer', items=list(s.items))
     if g == '<std::slice::Iter as std::iter::Iterator>::position' and isinstance(deref(a[0]), Opaque) and deref(a[0]).kind == 'arrpositer':
         it = deref(a[0])
+        if len(it.items) > 8:
+            # long arrays (108-byte Unix paths): one symbolic index instead of one branch per element.
+            # j = least k with pred(item_k), or n if there is none (total and unique definition)
+            import models_it
+            fake = models_it.SeqIter(None, 0, 0, 'byte', True)
+            fn, key = models_it.elem_pred(ex, fake, a[1])
+            n = len(it.items)
+            j = ex.fresh('apos')
+            cs = [j >= 0, j <= n]
+            for k, item in enumerate(it.items):
+                cs.append(z3.Or(z3.Not(j > k), z3.Not(fn(Z(item)))))
+                cs.append(z3.Or(z3.Not(j == k), fn(Z(item))))
+            ex.assume(z3.And(cs))
+            if ex.branch(j < n):
+                return True, Some(j)
+            return True, NoneV()
         for k, item in enumerate(it.items):
             r = models.call_closure(ex, a[1], [Ref(Cell(item))])
             if ex.branch(r):
